@@ -20,7 +20,7 @@ import (
 // which obligation kinds carry which property when the clause itself is not tagged
 var safetyKinds = map[string]bool{"index": true, "slice": true, "nil": true, "typeassert": true, "panic": true, "div": true, "makeslice": true, "decreases": true}
 var functionalKinds = map[string]bool{"post": true, "inv-entry": true, "inv-preserved": true, "pre": true}
-var frameKinds = map[string]bool{"frame": true, "frame-call": true}
+var frameKinds = map[string]bool{"frame": true, "frame-call": true, "closure-contract": true}
 
 type propSpec struct {
 	id     string
@@ -40,6 +40,13 @@ type extraResult struct {
 }
 
 var propSpecs = map[string]*propSpec{}
+
+// extraChecks: table / executed / inferred checks per property (registered from other files' init)
+var extraChecks = map[string][]func(P *Program, tier string) []extraResult{}
+
+// prepareChecks: run before the function VCs of a property are generated (e.g. frame inference, whose
+// summaries the hand-written contracts of the property rely on)
+var prepareChecks = map[string]func(P *Program, tier string){}
 
 func regProp(id string, opts genOpts, kinds map[string]bool, allFns bool) *propSpec {
 	ps := &propSpec{id: id, opts: opts, allFns: allFns, kinds: func(k string) bool { return kinds[k] }}
@@ -179,10 +186,13 @@ func runCheck(id, tier, repo, verif string, writeEvidence bool) int {
 		fmt.Fprintln(os.Stderr, err)
 		return 2
 	}
+	if prep := prepareChecks[id]; prep != nil {
+		prep(P, tier)
+	}
 	// functions that carry the property
 	var names []string
 	for name, con := range P.contracts {
-		if strings.HasPrefix(name, "invoke ") {
+		if strings.HasPrefix(name, "invoke ") || strings.HasPrefix(name, "functype ") {
 			continue
 		}
 		if ps.allFns || hasProp(con.Props, id) || clauseMentions(con, id) {
@@ -198,7 +208,7 @@ func runCheck(id, tier, repo, verif string, writeEvidence bool) int {
 	var missing []string
 	for _, name := range names {
 		fn := P.funcs[name]
-		con := P.contracts[name]
+		con := P.getContract(name)
 		if fn == nil {
 			missing = append(missing, name)
 			continue
@@ -237,7 +247,7 @@ func runCheck(id, tier, repo, verif string, writeEvidence bool) int {
 	sort.Slice(cr.results, func(i, j int) bool { return cr.results[i].Obl.Name < cr.results[j].Obl.Name })
 	// lemmas of the spec library tagged with this property
 	cr.extras = append(cr.extras, P.runLemmas(id, tmp, cr.timeout, tier == "thorough")...)
-	for _, ex := range ps.extra {
+	for _, ex := range extraChecks[id] {
 		cr.extras = append(cr.extras, ex(P, tier)...)
 	}
 	// pipeline canary: a false obligation must be refuted
@@ -316,7 +326,9 @@ func runCheck(id, tier, repo, verif string, writeEvidence bool) int {
 	for i := range cr.results {
 		r := &cr.results[i]
 		if r.Obl.Cover {
-			if !r.OK {
+			if !r.OK && P.getContract(r.Obl.Func).flag("allowdead") {
+				inconclusiveCovers = append(inconclusiveCovers, r.Obl.Name+" (unreachable; contract says allowdead)")
+			} else if !r.OK {
 				report(r.Obl.Name, "vacuity", "this return is unreachable under the contract's preconditions and loop invariants (cover query unsat): the proof of this function would be vacuous", r)
 			} else if r.Inconclusive {
 				inconclusiveCovers = append(inconclusiveCovers, r.Obl.Name)
@@ -367,6 +379,11 @@ func runCheck(id, tier, repo, verif string, writeEvidence bool) int {
 			if len(samples) < 16 {
 				samples = append(samples, map[string]interface{}{"obligation": ex.Name, "kind": ex.Kind, "detail": truncate(ex.Detail, 200), "ms": ex.Ms})
 			}
+			continue
+		}
+		if u, ok := unclaimed[ex.Name]; ok {
+			unclaimedHit = append(unclaimedHit, ex.Name+": "+u.Reason)
+			total--
 			continue
 		}
 		if f, ok := known[ex.Name]; ok {
